@@ -9,9 +9,10 @@ import numpy as np
 from sdpcap.affine import snap
 from sdpcap.capture import Captured, SymProgram, capture
 from sdpcap.task import SdpTask
-from symnp.core import lift
+from symnp.core import And, lift
 from symnp.harness import Obligation, eq
 from props.c01 import perm_index
+from props.common import Task, dagger
 from props.c02 import oracle_ptrace
 from props.c03 import oracle_pt
 from props.c10 import tr
@@ -182,9 +183,96 @@ def ob_list_unchanged(form, d):
     return Obligation("symmetric_extension_hierarchy.callers_list_unchanged", cfg, build, call, oracle, tv=False, neg=neg)
 
 
+class PptDualityTask(Task):
+    """T2: the captured dual PPT program is the Lagrange dual of the captured primal PPT program (both built by the real code).
+        primal: max Re sum_i <C_i, M_i>  s.t.  sum_i M_i = R,  M_i >= 0,  P_i(M_i) >= 0           (P_i: the code's partial transpose)
+        dual:   min Re <R, Y>            s.t.  D_i(Y, Q_i) >= 0,  Q_i >= 0
+    decided for symbolic Hermitian M_i, Y, Q_i:  sum_i <D_i^lin(Y, Q), M_i> = <Y, sum_i M_i> - sum_i <Q_i, P_i(M_i)>,
+    D_i(0, 0) = -C_i, R is the operator of the dual objective.  Independent of the harness' textbook references."""
+    engine = "E2-sdpcap (T2 Lagrangian pairing in z3)"
+    weight = 20
+
+    def __init__(self, cfg, call_primal, call_dual):
+        super().__init__("ppt_distinguishability.dual_is_lagrange_dual_of_primal", cfg)
+        self.cp, self.cd = call_primal, call_dual
+
+    def _run(self, rec, seed):
+        from sdpcap.capture import capture_call, extract, program_to_sym, sym_variables
+        from symnp.core import Ctx, SymBool, as_z3, use_ctx
+        from symnp.harness import Builder
+        pp, pd = extract(capture_call(self.cp)), extract(capture_call(self.cd))
+        rec["programs"] = 2
+        ctx = Ctx("lra", self.name)
+        with use_ctx(ctx):
+            b = Builder(ctx)
+            mx, cx = sym_variables(b, pp.vars, "m")
+            my, cy = sym_variables(b, pd.vars, "y")
+            P, D = program_to_sym(pp, cx), program_to_sym(pd, cy)
+            P0 = program_to_sym(pp, [[lift(0)] * len(c) for c in cx])
+            D0 = program_to_sym(pd, [[lift(0)] * len(c) for c in cy])
+            n = len(mx)
+            names_d = [v.name for v in pd.vars]
+            ok_shape = P.sense == "max" and D.sense == "min" and "Y" in names_d and len(my) == n + 1
+            r = r2 = "n/a"
+            if ok_shape:
+                Y = np.asarray(my[names_d.index("Y")])
+                Qs = [np.asarray(my[names_d.index(f"Q[{i}]")]) for i in range(n)]
+                Ms = [np.asarray(m) for m in mx]
+                eqs = [(E, E0) for (k, E), (_, E0) in zip(P.constraints, P0.constraints) if k == "eq"]
+                ppsd = [E for k, E in P.constraints if k == "psd"]
+                dpsd = [(E, E0) for (k, E), (_, E0) in zip(D.constraints, D0.constraints) if k == "psd"]
+                ok_shape = len(eqs) == 1 and len(ppsd) == 2 * n and len(dpsd) == 2 * n
+            if ok_shape:
+                # primal: the first n PSD constraints are M_i >= 0 themselves, the last n are the partial transposes (checked below);
+                # dual: the first n are D_i, the last n are Q_i >= 0
+                plain_p = And(*[eq(ppsd[i], Ms[i]) for i in range(n)])
+                plain_d = And(*[eq(dpsd[n + i][0], Qs[i]) for i in range(n)])
+                Pe, Pe0 = eqs[0]
+                L, Rr = np.asarray(Pe) - np.asarray(Pe0), -np.asarray(Pe0)
+                lhs, objp, rhs = 0, 0, tr(dagger(Y) @ L)
+                for i in range(n):
+                    De, De0 = dpsd[i]
+                    lhs = lhs + tr(dagger(np.asarray(De) - np.asarray(De0)) @ Ms[i])
+                    objp = objp + tr(dagger(-np.asarray(De0)) @ Ms[i])
+                    rhs = rhs - tr(dagger(Qs[i]) @ np.asarray(ppsd[n + i]))
+                obj_p = lift(np.asarray(P.objective, dtype=object).flat[0])
+                obj_d = lift(np.asarray(D.objective, dtype=object).flat[0])
+                goal = SymBool(plain_p) & SymBool(plain_d) & lift(lhs).eq_solver(rhs) & obj_p.eq_solver(lift(objp).real) & obj_d.eq_solver(lift(tr(dagger(Rr) @ Y)).real)
+                r, _ = ctx.check([as_z3(~SymBool(goal))])
+                r2, _ = ctx.check([as_z3(~SymBool(lift(lhs).eq_solver(rhs + 1)))])
+            rec["queries"], rec["solver_s"] = ctx.queries, round(ctx.solver_s, 3)
+            rec["neg_control"], rec["reachable"] = r2 == "sat", True
+        if ok_shape and r == "unsat" and r2 == "sat":
+            rec["status"] = "discharged"
+            return
+        rec["notes"].append("programs are not a primal / dual pair of the PPT block form" if not ok_shape else f"Lagrangian identities: {r}")
+        rec["disagreements_checked"] = 1
+        try:
+            a, d = float(np.real(self.cp()[0])), float(np.real(self.cd()[0]))
+        except (ArithmeticError, ZeroDivisionError) as e:
+            rec["notes"].append(f"replay: conic solver breakdown ({type(e).__name__})")
+            return
+        if abs(a - d) > 2e-4:
+            rec["status"] = "violation"
+            rec["violation"] = {"source": "the dual PPT program is not the Lagrange dual of the primal one; the optima differ with the real solver",
+                                "inputs": self.cfg, "actual": {"primal": a, "dual": d}, "expected": "equal optima"}
+        else:
+            rec["notes"].append(f"optima agree on this instance ({a:.6f} vs {d:.6f})")
+
+    def replay(self, rp):
+        a, d = float(np.real(self.cp()[0])), float(np.real(self.cd()[0]))
+        print({"primal": a, "dual": d})
+        return abs(a - d) <= 2e-4
+
+
 def obligations(tier):
     T = tier == "thorough"
     obs = []
+    for name, vs, ps, dims in instances(tier):
+        for S in ([0], [1]):
+            obs.append(PptDualityTask({"instance": name, "subsystems": S, "dimensions": dims},
+                                      (lambda vs=vs, ps=ps, S=S, dims=dims: ppt_distinguishability(vs, S, dims, ps, primal_dual="primal")),
+                                      (lambda vs=vs, ps=ps, S=S, dims=dims: ppt_distinguishability(vs, S, dims, ps, primal_dual="dual"))))
     for name, vs, ps, dims in instances(tier):
         n = len(vs)
         pp = ps if ps is not None else [1.0 / n] * n
